@@ -353,4 +353,247 @@ theorem wbound_poll {g : Cfg} {n : Nat} (ok : PWOK g n) (hk : g.p.flags.toNat % 
         · exact Or.inr ⟨a, b, by have := hs1.ans_le; omega, d⟩
 
 
+/-! ## The handler -/
+
+/-- the rest of a poll whose handler part ended in the write phase -/
+theorem wout_finish {g : Cfg} {n : Nat} (ok : PWOK g n) (hk : g.p.flags.toNat % 2 = 1) {c : Conn} {r0 r' : AReq}
+    {h0 : HState} {e2 : Run.Env} {O1 G dC dO : Bytes} (hph : c.phase = .handler r0 h0)
+    (hw : WOutG g.p.id g.data g.st (g.L1 ++ O1) r' e2 (handlerPoll (handlerFuel c.env r0) r0 h0 c.env))
+    (hts0 : TStep c.env.tr e2.tr) (hsg : e2.segs = c.env.segs)
+    (hi : RInv g.K r' G e2.tr.input dC dO) (hpos : Pos g.R r'.sp.raw r'.sp.pay r'.sp.pad e2.tr.input)
+    (hlk : r'.lock = .none) (hwr : r'.writeable = true) (hout : O1 ++ r'.sp.output = dO) (hrd : RdEv g e2.tr)
+    (hb : Ben c.env.tr) (hstop : c.stop = false) (hev : Ev1 g c.env.tr) (hsc : c.scripts = g.more) :
+    GRes (SW g n) (AW g) 3 c := by
+  have hstep := C07.handler_step c r0 h0 hph
+  rcases hhp : handlerPoll (handlerFuel c.env r0) r0 h0 c.env with ⟨r2, h2, e3, res⟩
+  rw [hhp] at hstep hw
+  obtain ⟨hr2, q1, q2, q3, q4⟩ := hw
+  simp only at hr2 q1 q2 q3 q4
+  subst hr2
+  have hts := hts0.trans q1
+  rcases q4 with ⟨rfl, hwk, hans, hwg⟩ | ⟨rfl, hws, hmx, hlg⟩
+  · have hstep' : stepConn c = .halt ⟨.handler r2 h2, e3, c.scripts, c.stop⟩ .pending := hstep
+    refine Or.inl ⟨_, (Halts.now hstep').mono (by omega), ⟨hts.w, q3.trans hsg, rfl⟩, ?_, hwk,
+      by show ans e3.tr < ans c.env.tr; have := hts0.ans_le; omega⟩
+    exact Or.inr (Or.inr (Or.inl ⟨r2, h2, O1, G, dC, dO, rfl, hwg, by rw [q2]; exact hi, by rw [q2]; exact hpos,
+      hlk, hwr, hout, hrd.step q1, hb.step hts, hstop, hev.step hts, hsc⟩))
+  · have halive : (h2.writers.filter Option.isSome).length = 0 := by rw [hws]; rfl
+    simp only [halive] at hstep
+    have hstep' : stepConn c =
+        .next ⟨.closing r2 .start g.st 0, e3.ev s!"HE(ok:{showStatus g.st})", c.scripts, c.stop⟩ := hstep
+    have hts2 : TStep c.env.tr (e3.tr.ev s!"HE(ok:{showStatus g.st})") :=
+      hts.trans (TStep.ev _ (by simp [isHS, toString_str]))
+    have hcore := wclose_start ok hk
+      (c := ⟨.closing r2 .start g.st 0, e3.ev s!"HE(ok:{showStatus g.st})", c.scripts, c.stop⟩) (G := G) (dC := dC)
+      (dO := dO) rfl (by show RInv g.K r2 G e3.tr.input dC dO; rw [q2]; exact hi)
+      (by show Pos g.R r2.sp.raw r2.sp.pay r2.sp.pad e3.tr.input; rw [q2]; exact hpos) hlk hwr hmx
+      ⟨O1, by show (e3.tr.ev _).wlog = _; rw [Transport.ev_wlog, hlg]; rfl, hout⟩
+      ((hrd.step q1).step (TStep.ev _ (by simp [isHS, toString_str]))) (hb.step hts2) hstop (hev.step hts2) hsc
+    exact (GRes.of_steps (Steps.one hstep') ⟨hts2.w, q3.trans hsg, rfl⟩ hcore).mono (by omega)
+
+/-- One poll that starts inside the handler's `write_all`. -/
+theorem hww_poll {g : Cfg} {n : Nat} (ok : PWOK g n) (hk : g.p.flags.toNat % 2 = 1) {c : Conn} {r : AReq} {h : HState}
+    {O1 G dC dO : Bytes} (hph : c.phase = .handler r h)
+    (hwg : HWriteG g.p.id g.data g.st (g.L1 ++ O1) h c.env)
+    (hi : RInv g.K r G c.env.tr.input dC dO) (hpos : Pos g.R r.sp.raw r.sp.pay r.sp.pad c.env.tr.input)
+    (hlk : r.lock = .none) (hwr : r.writeable = true) (hout : O1 ++ r.sp.output = dO) (hrd : RdEv g c.env.tr)
+    (hb : Ben c.env.tr) (hstop : c.stop = false) (hev : Ev1 g c.env.tr) (hsc : c.scripts = g.more) :
+    GRes (SW g n) (AW g) 3 c := by
+  refine wout_finish ok hk hph (write_phaseG hwg hb ?_) (.refl _) rfl hi hpos hlk hwr hout hrd hb hstop hev hsc
+  have := handlerFuel_ge c.env r
+  have := ok.hfu
+  omega
+
+/-- One poll that starts inside the handler's `read` (or before it). -/
+theorem hrw_poll {g : Cfg} {n : Nat} (ok : PWOK g n) (hk : g.p.flags.toNat % 2 = 1) {c : Conn} {r : AReq} {h : HState}
+    {dO : Bytes} (hph : c.phase = .handler r h)
+    (hops : h.ops = .read n :: oscript g.data g.st) (hws : h.writers = []) (hpr : h.propagate = true)
+    (hs : RSt g.K g.L1 [] r c.env.mutex c.env.tr [] dO)
+    (hpos : Pos g.R r.sp.raw r.sp.pay r.sp.pad c.env.tr.input)
+    (hb : Ben c.env.tr) (hstop : c.stop = false) (hev : Ev1 g c.env.tr) (hsc : c.scripts = g.more) :
+    GRes (SW g n) (AW g) 4 c := by
+  have hK := ok.kok
+  obtain ⟨f, hf⟩ : ∃ f, handlerFuel c.env r = f + 2 := ⟨handlerFuel c.env r - 2, by have := handlerFuel_ge c.env r; omega⟩
+  obtain ⟨ops, sub, ws, pr⟩ := h
+  simp only at hops hws hpr
+  subst hops hws hpr
+  rcases hpi : r.pollInput (some n) c.env.mutex c.env.tr with ⟨r', m', t', res⟩
+  obtain ⟨hts, hpost, _⟩ := pollInput_sim hK ok.hn hb hs hpi
+  obtain ⟨n', rfl⟩ : ∃ n', n = n' + 1 := ⟨n - 1, by have := ok.hn; omega⟩
+  obtain ⟨⟨G0, hi0⟩, hlk0, hmx0, _⟩ := hs
+  have hwfR : ∀ r ∈ g.R, r.WF := fun r hr => (ok.str r hr).1
+  have hpos' : (∀ s, res ≠ .panic s) → Pos g.R r'.sp.raw r'.sp.pay r'.sp.pad t'.input :=
+    pollInput_pos hwfR hb hlk0 hmx0 hi0.par hpos hpi
+  cases res with
+  | pending =>
+    have hstep := C07.handler_step c r _ hph
+    rw [hf, hp_read, hpi] at hstep
+    obtain ⟨⟨dO', hs'⟩, hwk, hans⟩ := hpost
+    have hstep' : stepConn c = .halt ⟨.handler r' ⟨.read (n' + 1) :: oscript g.data g.st, sub, [], true⟩,
+        { c.env with mutex := m', tr := t' }, c.scripts, c.stop⟩ .pending := hstep
+    exact Or.inl ⟨_, (Halts.now hstep').mono (by omega), ⟨hts.w, rfl, rfl⟩,
+      Or.inr (Or.inl ⟨r', _, dO', rfl, rfl, rfl, rfl, hs', hpos' (fun s hx => nomatch hx), hb.step hts, hstop,
+        hev.step hts, hsc⟩), hwk, hans⟩
+  | ready k d =>
+    obtain ⟨hk', dO', hs', hlk', hm', hpos0, _, hfin⟩ := hpost
+    obtain ⟨⟨G1, hi1⟩, _, _, ⟨O1, hlog1, hlog2⟩⟩ := hs'
+    have hwr : r'.writeable = true := hfin (by show (nextInputStream g.p.role (some 5)).isNone = true; rw [ok.role]; rfl)
+    have hreq : r'.sp.request = g.p.request := hi1.req
+    have hid' : r'.sp.request.id = g.p.id := by rw [hreq]; rfl
+    have hrole' : r'.sp.request.role = 1 := by rw [hreq]; exact ok.role
+    -- the handler goes on: `open`, `write_all`
+    have heqX : handlerPoll (handlerFuel c.env r) r
+          { ops := .read (n' + 1) :: oscript g.data g.st, sub := sub, writers := [], propagate := true } c.env =
+        handlerPoll (f + 1) r' { ops := oscript g.data g.st, propagate := true }
+          (({ c.env with mutex := m', tr := t' } : Run.Env).ev s!"r={k}:{hexOrDash d}") := by
+      rw [hf, hp_read, hpi]
+    have hts1 : TStep c.env.tr (t'.ev s!"r={k}:{hexOrDash d}") := hts.trans (TStep.ev _ (by simp [isHS, toString_str]))
+    have hrdev : RdEv g (t'.ev s!"r={k}:{hexOrDash d}") := by
+      have hnow := (hi1.now hK).1
+      have hC : g.content = d ++ (Rem g.K.E r'.sp t'.input).content := by
+        have : g.K.C = g.content := rfl
+        rw [← this, hnow]; rfl
+      refine ⟨d, ⟨_, hC.symm⟩, ?_, ?_⟩
+      · intro hd
+        subst hd
+        rcases hpos0 with hp | hp
+        · simp at hk'; omega
+        · exact hp.1.symm
+      · subst hk'
+        show rdEvent d ∈ t'.events ++ [_]
+        simp [rdEvent]
+    have hfu := ok.hfu
+    have hfge := handlerFuel_ge c.env r
+    have hw := open_phaseG (data := g.data) (st := g.st) (Lb := g.L1 ++ O1) (r := r')
+      (e := ({ c.env with mutex := m', tr := t' } : Run.Env).ev s!"r={k}:{hexOrDash d}") hwr hrole' hm'
+      (by show (t'.ev _).wlog = _; rw [Transport.ev_wlog, hlog1]) (hb.step hts1) (fuel := f + 1) (by omega)
+    rw [hid', ← heqX] at hw
+    exact (wout_finish ok hk hph hw hts1 rfl (G := G1) (dC := [] ++ d) (dO := dO')
+      (by show RInv g.K r' G1 t'.input _ _; exact hi1) (by show Pos g.R _ _ _ t'.input; exact hpos' (fun s hx => nomatch hx))
+      hlk' hwr (by rw [hlog2]; rfl) hrdev hb hstop hev hsc).mono (by omega)
+  | err e => exact hpost.elim
+  | panic s => exact hpost.elim
+
+/-- the first poll of the handler -/
+theorem prefixW_first {g : Cfg} {n : Nat} (ok : PWOK g n) (hk : g.p.flags.toNat % 2 = 1) :
+    FirstPoll g (SW g n) (AW g) := by
+  intro c e1 hph hlen hwire hlog hm hb hstop hev hsc
+  have hstart : C03SI.Start g.K.E (Str.Parser.fromParser g.cap g.p.request e1 g.mc) :=
+    C03SI.start_fresh g.cap g.p.request e1 g.mc hlen ok.hid (Or.inl ok.role)
+  have hri : RInv g.K (AReq.new (Str.Parser.fromParser g.cap g.p.request e1 g.mc)) e1 c.env.tr.input [] [] := by
+    refine ⟨hstart.mtch, hstart.inv, rfl, rfl, rfl, hwire, fun x => ?_⟩
+    have := C03SI.rem_start hstart x
+    show refWire g.K.E (e1 ++ x) = (Rem g.K.E (Str.Parser.fromParser g.cap g.p.request e1 g.mc) x).pre [] []
+    rw [this]; rfl
+  rw [ok.hs] at hph
+  refine hrw_poll ok hk (dO := []) hph rfl rfl rfl
+    ⟨⟨e1, hri⟩, by rw [hm]; exact lockInv_free rfl, Or.inl hm, ⟨[], by rw [hlog, List.append_nil], rfl⟩⟩ ?_
+    hb hstop hev hsc
+  exact ⟨[], [], g.R, rfl, rfl, by show e1 ++ c.env.tr.input = _; rw [hwire, ok.XR]; rfl, List.suffix_refl _⟩
+
+theorem SW.cong {g : Cfg} {n : Nat} {c c' : Conn} (h : SW g n c)
+    (hph : c'.phase = c.phase) (hsc : c'.scripts = c.scripts) (hstop : c'.stop = c.stop)
+    (hm : c'.env.mutex = c.env.mutex) (hs : TrSame c.env.tr c'.env.tr) : SW g n c' := by
+  rcases h with h | ⟨r, h, dO, h1, h2, h3, h4, h5, h6, h7, h8, h9, h10⟩ |
+    ⟨r, h, O1, G, dC, dO, h1, h2, h3, h4, h5, h6, h7, h8, h9, h10, h11, h12⟩ |
+    ⟨r, dO, O1, h1, h2, h3, h4, h5, h6, h7, h8, h9, h10, h11, h12, h13, h14, h15, h16, h17, h18, h19⟩ |
+    ⟨s1, s2, O1, O2, h1, h2, h3, h4⟩
+  · exact Or.inl (h.cong hph hsc hstop hm hs)
+  · exact Or.inr (Or.inl ⟨r, h, dO, hph.trans h1, h2, h3, h4, h5.cong hm hs, by rw [hs.input]; exact h6, hs.ben h7,
+      hstop.trans h8, hs.ev1 h9, hsc.trans h10⟩)
+  · refine Or.inr (Or.inr (Or.inl ⟨r, h, O1, G, dC, dO, hph.trans h1, ?_, by rw [hs.input]; exact h3,
+      by rw [hs.input]; exact h4, h5, h6, h7, h8.same hs, hs.ben h9, hstop.trans h10, hs.ev1 h11, hsc.trans h12⟩))
+    obtain ⟨w, L, sent, a1, a2, a3, a4⟩ := h2.wr
+    exact ⟨h2.ops, h2.pr, ⟨w, L, sent, a1, by rw [hm]; exact a2, hs.wlog.trans a3, a4⟩, h2.len⟩
+  · exact Or.inr (Or.inr (Or.inr (Or.inl ⟨r, dO, O1, hph.trans h1, by rw [hs.input]; exact h2, h3, h4, h5, h6,
+      hm.trans h7, hs.wlog.trans h8, h9, h10, h11, h12, h13, by rw [hs.input]; exact h14, h15.same hs, hs.ben h16,
+      hstop.trans h17, hs.ev1 h18, hsc.trans h19⟩)))
+  · exact Or.inr (Or.inr (Or.inr (Or.inr ⟨s1, s2, O1, O2, h1, h2, h3.same hs, h4.cong hph hsc hstop hm hs⟩)))
+
+theorem sw_poll {g : Cfg} {n : Nat} (ok : PWOK g n) (hk : g.p.flags.toNat % 2 = 1) {c : Conn} (h : SW g n c) :
+    GRes (SW g n) (AW g) (2 * c.env.tr.input.length + 9) c := by
+  rcases h with h | ⟨r, h, dO, h1, h2, h3, h4, h5, h6, h7, h8, h9, h10⟩ |
+    ⟨r, h, O1, G, dC, dO, h1, h2, h3, h4, h5, h6, h7, h8, h9, h10, h11, h12⟩ |
+    ⟨r, dO, O1, h1, h2, h3, h4, h5, h6, h7, h8, h9, h10, h11, h12, h13, h14, h15, h16, h17, h18, h19⟩ |
+    ⟨s1, s2, O1, O2, h1, h2, h3, h4⟩
+  · exact fstage_poll ok.fok (fun _ h => Or.inl h) (prefixW_first ok hk) h
+  · exact (hrw_poll ok hk h1 h2 h3 h4 h5 h6 h7 h8 h9 h10).mono (by omega)
+  · exact (hww_poll ok hk h1 h2 h3 h4 h5 h6 h7 h8 h9 h10 h11 h12).mono (by omega)
+  · exact (wbound_poll ok hk h1 h2 h3 h4 h5 h6 h7 ⟨O1, h8, h9⟩ h10 h11 h12 h13 h14 h15 h16 h17 h18 h19).mono (by omega)
+  · exact ((lstage_poll (g := gD g s2 ((g.L1 ++ O1) ++ g.D ++ O2)) hk h4).imp
+      (fun _ hl h => Or.inr (Or.inr (Or.inr (Or.inr ⟨s1, s2, O1, O2, h1, h2, h3.wstep hl.ts, h⟩))))
+      (fun _ hl h => ⟨s1, s2, O1, O2, h1, h2, h3.wstep hl.ts, h⟩)).mono (by omega)
+
+/-- the index of the outcome: the split, the replies before / after the Stdout records, what the
+`read` returned -/
+structure WIdx where
+  s1 : List Rec
+  s2 : List Rec
+  O1 : Bytes
+  O2 : Bytes
+  d : Bytes
+
+def WIdx.OK (g : Cfg) (i : WIdx) : Prop :=
+  g.R = i.s1 ++ i.s2 ∧ i.O1 ++ i.O2 = owedI g.p.id g.mc i.s1 ∧ i.d <+: g.content ∧ (i.d = [] → g.content = [])
+
+/-- **The executor** for a Responder request with KEEP_CONN whose handler is
+`[.read n, .open_ 6, .writeAll 0 data, .dropW 0, .ret st]`. -/
+theorem run_prefixW {g : Cfg} {n : Nat} (ok : PWOK g n) (hk : g.p.flags.toNat % 2 = 1) {Z : Bytes}
+    (hns : ∀ s1 s2, g.R = s1 ++ s2 → NoStuckW g.cap g.mc (serAll s2 ++ Z))
+    (hNF : ∀ s1 s2, g.R = s1 ++ s2 → ∀ F x, F ++ x ++ Z = serAll s2 ++ Z → (run .header F g.mc).st.isFinal = false)
+    (em : EndMode) (evs0 : List String) (c : Conn) (n0 fuel : Nat) (hst : FStage g c)
+    (hem : c.env.tr.endMode = em) (hev0 : ∀ s ∈ evs0, s ∈ c.env.tr.events)
+    (hsegs : c.env.segs = []) (hf : ans c.env.tr + 1 ≤ fuel) (hlen : 6 * c.env.tr.input.length + 26 ≤ 100000) :
+    ∃ c'' fin, runTask fuel c n0 none = (c'', fin) ∧
+      GEnd g.cap g.mc Z g.more (g.hs0 + 1) (WIdx.OK g) (fun i => serAll i.s2 ++ Z)
+        (fun i => (g.L1 ++ i.O1) ++ g.D ++ i.O2 ++ g.epi)
+        (fun i => [hsEvent g.p.request, rdEvent i.d]) em evs0 (ans c.env.tr) c'' fin :=
+  run_stages (cap24 g) (fun i hi => hns i.s1 i.s2 hi.1) (fun i hi => hNF i.s1 i.s2 hi.1) (fun _ _ h => h.cong)
+    (fun _ h => (sw_poll ok hk h).imp (fun _ _ h => h) (fun c1 _ h => by
+      obtain ⟨s1, s2, O1, O2, hsp, hO, ⟨d, hd1, hd2, hd3⟩, haf⟩ := h
+      obtain ⟨raw, hph, hw, hraw⟩ := haf.ph
+      refine ⟨⟨s1, s2, O1, O2, d⟩, ⟨hsp, hO, hd1, hd2⟩, Or.inr ⟨raw, hph, by rw [hw]; rfl, hraw, ?_, haf.ben, haf.stop⟩,
+        ⟨haf.sc, haf.mtx, haf.ev.1, fun s hs => ?_⟩⟩
+      · rw [haf.log, gD_LU]
+      · rcases List.mem_cons.1 hs with rfl | hs
+        · exact haf.ev.2
+        · rw [List.mem_singleton.1 hs]; exact hd3))
+    em evs0 c n0 fuel (Or.inl hst) hem hev0 hsegs hf hlen
+
+/-- the request started from any `StartAt` of a chain -/
+theorem serve_prefixW_core {g : Cfg} {n : Nat} (ok : PWOK g n) (hk : g.p.flags.toNat % 2 = 1) {left : List Rec}
+    (hleft : LeftOK (alignedBufsize g.b) left) {Z : Bytes} (hR : ∀ e ∈ g.R, IdleNoise e)
+    (hZ : ∀ s1 s2, g.R = s1 ++ s2 → GoodNext g.cap g.mc s2 Z)
+    {Lw : Bytes} {evs : List String} {A0 : Nat} {c : Conn} (n0 fuel : Nat)
+    (hLw : Lw = g.L0 ++ idleOwed g.mc left)
+    (hstart : StartAt g.cap g.mc left Lw ((g.hscript, true) :: g.more) g.hs0 evs A0 g.W c)
+    (hf : A0 + 1 ≤ fuel) (hsize : 6 * g.W.length + 26 ≤ 100000) :
+    ∃ c' i, runTask fuel c n0 none = (c', "STALL") ∧ WIdx.OK g i ∧ rdEvent i.d ∈ c'.env.tr.events ∧
+      Waiting g.cap g.mc i.s2 (((g.front left).L1 ++ i.O1) ++ g.D ++ i.O2 ++ g.epi ++ idleOwed g.mc i.s2) g.more
+        (g.hs0 + 1) (hsEvent g.p.request :: evs) A0 c' := by
+  have okf := ok.front hleft
+  obtain ⟨hst, hsg, hem, hans, hev, hin⟩ := fstage_of_startAt hleft hLw hstart
+  obtain ⟨c', fin, hrun, i, hi, hkp, hem', hev', hans', hsg', hend⟩ :=
+    run_prefixW okf hk (Z := Z) (fun s1 s2 h => (hZ s1 s2 h).1) (fun s1 s2 h => (hZ s1 s2 h).2) .pend evs c n0 fuel hst hem hev hsg
+      (by omega) (by rw [hin]; exact hsize)
+  have hi' : WIdx.OK g i := hi
+  have hs2 : ∀ e ∈ i.s2, IdleNoise e := fun e he => hR e (by rw [hi'.1]; exact List.mem_append_right _ he)
+  rcases hend with ⟨rfl, hp⟩ | ⟨_, hfn⟩
+  · obtain ⟨F, hF, hps, hph, hlg⟩ := hp.pst
+    have hFe : F = serAll i.s2 := List.append_cancel_right hF
+    subst hFe
+    have hnf : (run .header (serAll i.s2) g.mc).st.isFinal = false := (run_idle_out g.mc i.s2 hs2).2.2
+    have hob : (run .header (serAll i.s2) (g.front left).mc).out = idleOwed g.mc i.s2 :=
+      (run_idle_out g.mc i.s2 hs2).1
+    refine ⟨c', i, hrun, hi', hkp.ev _ (by simp), ⟨hph, hnf, hps.rem, hp.inp, by rw [hlg, hob]; rfl,
+      ⟨((g.front left).L1 ++ i.O1) ++ g.D ++ i.O2 ++ g.epi, by
+        show _ = _ ++ (run .header (serAll i.s2) (g.front left).mc).out
+        rw [hob]⟩, hps.stop, hps.ben, hkp.sc, hkp.mx,
+      hkp.hs, ?_, hsg', hem', by omega⟩⟩
+    intro s hs
+    rcases List.mem_cons.1 hs with rfl | hs
+    · exact hkp.ev _ List.mem_cons_self
+    · exact hev' s hs
+  · rw [hfn.em] at hem'; cases hem'
+
 end Fcgi.E2E
